@@ -244,6 +244,7 @@ func oneCase(run *hlib.Run, rng *hlib.Rng, c int) {
 	joiner, leaver := ids[n], members[rng.Intn(len(members))]
 	peer := members[rng.Intn(len(members))]
 	d1, d2 := time.Duration(rng.Intn(6))*time.Millisecond, time.Duration(rng.Intn(10))*time.Millisecond
+	holdAt := 1 + rng.Intn(2)
 	if directed {
 		leaver = dirLeaver
 	}
@@ -252,7 +253,17 @@ func oneCase(run *hlib.Run, rng *hlib.Rng, c int) {
 		defer func() { recover() }()
 		time.Sleep(d1)
 		if directed {
-			at, resume := r.PauseNext(func(m string) bool { return strings.HasPrefix(m, "FinishJoin") })
+			// the join is held before its first or before its second FinishJoin call (advisory to the
+			// predecessor / release of the successor's lock)
+			seen := 0
+			run.Count(hlib.F("window:before-finishjoin-%d", holdAt))
+			at, resume := r.PauseNext(func(m string) bool {
+				if !strings.HasPrefix(m, "FinishJoin") {
+					return false
+				}
+				seen++
+				return seen == holdAt
+			})
 			jd := make(chan error, 1)
 			go func() {
 				defer func() {
